@@ -52,9 +52,12 @@ func (c c15connCodec) DecodeValue(m *pgtype.Map, oid uint32, format int16, src [
 type c15session struct {
 	User   string
 	Params [][2]string // further start-up parameters, as real drivers send them
-	Progs  map[string]*hs.Prog
-	Steps  [][]byte
-	Kinds  []string
+	// WantExec: statement id -> the trace entry every execution of that statement must show (the
+	// parameters of the Bind its portal came from, whatever was sent between Bind and Execute)
+	WantExec map[string]string
+	Progs    map[string]*hs.Prog
+	Steps    [][]byte
+	Kinds    []string
 }
 
 func c15gen(rng *core.Rng, tag string, custom bool) c15session {
@@ -113,6 +116,19 @@ func c15genShared(rng *core.Rng, tag string, custom bool, group string) c15sessi
 			in = append(in, pg.Parse("ls", q, []uint32{25})...)
 			in = append(in, pg.Describe('S', "ls")...)
 			in = append(in, pg.Bind("lp", "ls", []int16{0, 1}, params, []int16{int16(rng.Intn(2))})...)
+			if s.WantExec == nil {
+				s.WantExec = map[string]string{}
+			}
+			s.WantExec[id] = fmt.Sprintf("exec:%s:%q", id, params)
+			if rng.Intn(3) == 0 {
+				// between Bind and Execute: another portal of the same statement with parameters of the same
+				// sizes, and a Parse longer than the Bind - the first portal keeps its own parameters
+				other := [][]byte{bytes.Repeat([]byte{'B'}, len(big)), {9, 9, 9, 9}}
+				in = append(in, pg.Bind("lp2", "ls", []int16{0, 1}, other, nil)...)
+				lq := "LX " + id + " " + strings.Repeat("later traffic ", 3+len(big)/10)
+				s.Progs[lq] = &hs.Prog{Stmts: []*hs.Stmt{{ID: "lx-" + id, Ops: []hs.Op{{K: "complete", Tag: "OK"}}}}}
+				in = append(in, pg.Parse("lx", lq, nil)...)
+			}
 			in = append(in, pg.Describe('P', "lp")...)
 			in = append(in, pg.Execute("lp", 0)...)
 			in = append(in, pg.Execute("lp", uint32(rng.Intn(3)))...)
@@ -251,6 +267,21 @@ type c15result struct {
 	Foreign   string // ... that carry another connection's stamp
 }
 
+// c15execProblem checks the exec entries of a trace against the session's WantExec.
+func c15execProblem(s c15session, trace []string) string {
+	for _, t := range trace {
+		if !strings.HasPrefix(t, "exec:") {
+			continue
+		}
+		for id, want := range s.WantExec {
+			if strings.HasPrefix(t, "exec:"+id+":") && t != want {
+				return fmt.Sprintf("a portal was executed with other parameters than its Bind carried: got %s, want %s", trim(t, 200), trim(want, 200))
+			}
+		}
+	}
+	return ""
+}
+
 func c15run(env *hs.Env, s c15session, yield func()) (r c15result, cl *hs.Client) {
 	sess := &hs.Sess{Progs: s.Progs}
 	conn := tr.NewConn(sess)
@@ -324,6 +355,9 @@ func c15run(env *hs.Env, s c15session, yield func()) (r c15result, cl *hs.Client
 				}
 			}
 		}
+	}
+	if p := c15execProblem(s, r.Trace); p != "" && r.Err == "" {
+		r.Err = p
 	}
 	return
 }
